@@ -143,15 +143,16 @@ namespace Q
 /-- A rune of a literal together with the leaves merged into it. -/
 abbrev QChar := UInt8 × List Nat
 
-/-- The part of `syntax.Regexp` the simulation needs. `opq`: a node `factor` never looks into
-    (assertions, `* + ?`, open repeats, capture groups); `rep`: `OpRepeat` with `Min = Max`. -/
+/-- The part of `syntax.Regexp` the simulation needs. `opq req`: a node `factor` never looks into
+    (assertions, `* + ?`, open repeats, capture groups) together with the literals
+    `appendRequiredLiterals` (rules/network.go) collects from it; `rep`: `OpRepeat` with `Min = Max`. -/
 inductive G where
   | lit (cs : List QChar) (fold : Bool)
   | cls (set : List Nat)
   | any
   | anyNL
   | empty
-  | opq
+  | opq (req : List Bytes)
   | rep (n : Nat) (sub : G)
   | cat (subs : List G)
   | alt (subs : List G)
@@ -374,19 +375,26 @@ def leafG (id : Nat) : Re → Option G
   | .anyNL => some .anyNL
   | _ => none
 
-/-- An atom of a concatenation. -/
-def atomG (id : Nat) (a : Re) : G :=
-  match leafG id a with
-  | some g => g
-  | none =>
-    match a with
-    | .rep x m (some n) =>
-      if m == n then
-        match leafG id x with
-        | some g => if isCC g then .rep m g else .opq
-        | none => .opq
-      else .opq
-    | _ => .opq
+/-- `appendRequiredLiterals` (rules/network.go) on the simulated tree. -/
+def reqG : Nat → G → List Bytes
+  | 0, _ => []
+  | fuel + 1, g =>
+    match g with
+    | .lit cs _ => [Bytes.toLower (cs.map (·.1))]
+    | .opq req => req
+    | .rep n s => if n > 0 then reqG fuel s else []
+    | .cat l => l.flatMap (reqG fuel)
+    | _ => []
+
+/-- `parser.push` of the result of `alternate()`: a class of one character, or of the two cases of a
+    letter, becomes a literal. -/
+def pushG : G → G
+  | .cls s =>
+    match s with
+    | [c] => .lit [(c.toUInt8, [])] false
+    | [a, b] => if isTwoCaseSet [a, b] then .lit [(a.toUInt8, [])] true else .cls s
+    | _ => .cls s
+  | g => g
 
 /-- The atoms of a branch (`mkCat`): the right spine of the concatenation. -/
 def atomsOf : Re → List Re
@@ -394,26 +402,10 @@ def atomsOf : Re → List Re
   | .empty => []
   | r => [r]
 
-/-- Without non-capturing groups an atom is never a concatenation, an alternation or empty. -/
-def atomOK : Re → Bool
-  | .cat _ _ => false
-  | .alt _ _ => false
-  | .empty => false
-  | _ => true
-
 /-- Pair every expression of the list with the number of its first leaf. -/
 def withOffsets : List Re → Nat → List (Re × Nat)
   | [], _ => []
   | a :: rest, off => (a, off) :: withOffsets rest (off + a.leafCount)
-
-/-- The capture groups inside an atom (each is a frame of its own). -/
-def innerFrame? : Re → Option Re
-  | .grp x => some x
-  | .star x => innerFrame? x
-  | .plus x => innerFrame? x
-  | .quest x => innerFrame? x
-  | .rep x _ _ => innerFrame? x
-  | _ => none
 
 def size : Re → Nat
   | .cat a b => size a + size b + 1
@@ -432,26 +424,53 @@ def mapMOpt {α β : Type} (f : α → Option β) : List α → Option (List β)
     | some b, some bs => some (b :: bs)
     | _, _ => none
 
+/-- The result of simulating a frame: the flags of its literals and what it requires. -/
+abbrev FrameOut := FlagMap × List Bytes
+
+/-- An atom of a concatenation as Go's parser pushes it (`id`: the number of its first leaf), with
+    the flag table of the capture groups inside it.  `frame` simulates a capture group.
+    `none`: a concatenation / alternation / empty match in atom position — a non-capturing group. -/
+def atomSim (frame : Re → Nat → Option FrameOut) (fuelG : Nat) (id : Nat) : Re → Option (G × FlagMap)
+  | .cat _ _ => none
+  | .alt _ _ => none
+  | .empty => none
+  | .grp x => (frame x id).map fun (m, req) => (.opq req, m)
+  | .plus x => (atomSim frame fuelG id x).map fun (g, m) => (.opq (reqG fuelG g), m)
+  | .star x => (atomSim frame fuelG id x).map fun (_, m) => (.opq [], m)
+  | .quest x => (atomSim frame fuelG id x).map fun (_, m) => (.opq [], m)
+  | .rep x mn mx =>
+    match leafG id x with
+    | some g => if mx == some mn && isCC g then some (.rep mn g, []) else some (.opq (if mn > 0 then reqG fuelG g else []), [])
+    | none => (atomSim frame fuelG id x).map fun (g, m) => (.opq (if mn > 0 then reqG fuelG g else []), m)
+  | a =>
+    match leafG id a with
+    | some g => some (g, [])
+    | none => some (.opq [], [])
+
 /-- One frame (the top level, or the inside of a capture group) and, recursively, the frames inside
     it.  `none`: the tree shows a non-capturing group. -/
-def simFrame : Nat → Re → Nat → Option FlagMap
+def simFrame : Nat → Re → Nat → Option FrameOut
   | 0, _, _ => none
   | fuel + 1, r, off =>
+    let fuelG := 4 * size r + 16
     let branches := (withOffsets (branchesOf r) off).map fun (b, o) => withOffsets (atomsOf b) o
-    if !(branches.all fun atoms => atoms.all fun (a, _) => atomOK a) then none
-    else
-      let nodes := branches.map fun atoms => branchNode (mergeLits (atoms.map fun (a, o) => atomG o a))
-      let top := collapseAlt (4 * size r + 16) (prepass [] nodes)
-      let inner := mapMOpt (fun (a, o) =>
-          match innerFrame? a with
-          | some x => simFrame fuel x o
-          | none => some []) branches.flatten
-      inner.map fun ms => readFlags (4 * size r + 16) top ++ ms.flatten
+    match mapMOpt (fun atoms => mapMOpt (fun (a, o) => atomSim (simFrame fuel) fuelG o a) atoms) branches with
+    | none => none
+    | some sims =>
+      let nodes := sims.map fun atoms => branchNode (mergeLits (atoms.map (·.1)))
+      let top := collapseAlt fuelG (prepass [] nodes)
+      let inner := (sims.map fun atoms => (atoms.map (·.2)).flatten).flatten
+      some (readFlags fuelG top ++ inner, reqG fuelG (pushG top))
 
 end Q
 
 /-- Go's tree of the case-sensitive expression `r`, in the shape of `r`. -/
 def quirkTree (r : Re) : Option Re :=
-  (Q.simFrame (Q.size r + 1) r 0).map fun m => applyFlags m r 0
+  (Q.simFrame (Q.size r + 1) r 0).map fun out => applyFlags out.1 r 0
+
+/-- The literals `requiredRegexpLiterals` collects from Go's tree of the case-sensitive expression
+    `r` (`none`: the tree shows a non-capturing group). -/
+def quirkReq (r : Re) : Option (List Bytes) :=
+  (Q.simFrame (Q.size r + 1) r 0).map fun out => out.2
 
 end UF.Re
